@@ -1,5 +1,25 @@
 import P2.Props.C04
+import P2.Props.C04b
 #print axioms P2.Props.C04.observed_append
 #print axioms P2.Props.C04.plonk_schedule_observes
 #print axioms P2.Props.C04.fri_schedule_observes
 #print axioms P2.Props.C04.fri_params_observed
+#print axioms P2.Props.C04.run_eq_runState
+#print axioms P2.Props.C04.runState_append
+#print axioms P2.Props.C04.run_append
+#print axioms P2.Props.C04.run_prefix
+#print axioms P2.Props.C04.run_length
+#print axioms P2.Props.C04.run_congr_prefix
+#print axioms P2.Props.C04.duplexing_inj
+#print axioms P2.Props.C04.duplexing_differs
+#print axioms P2.Props.C04.state_dependence
+#print axioms P2.Props.C04.state_dependence_boundary
+#print axioms P2.Props.C04.single_block_state
+#print axioms P2.Props.C04.state_dependence_single_block
+#print axioms P2.Props.C04.history_state_dependence
+#print axioms P2.Props.C04.challenges_explicit
+#print axioms P2.Props.C04.challenges_from_state
+#print axioms P2.Props.C04.plonk_observed_inj
+#print axioms P2.Props.C04.wires_cap_changes_transcript
+#print axioms P2.Props.C04.statement_or_cap_changes_transcript
+#print axioms P2.Props.C04.fri_observed_inj
